@@ -88,7 +88,54 @@ def contract_text(sig, clauses, prop, linemap, lines, who):
     lines.append(';')
 
 
-def gen_unit(gen_dir, index, specs, fname, prop, path, extra_harness=''):
+def split_and(e):
+    out, depth, cur, i = [], 0, '', 0
+    while i < len(e):
+        ch = e[i]
+        if ch in '([':
+            depth += 1
+        elif ch in ')]':
+            depth -= 1
+        if depth == 0 and e.startswith('&&', i):
+            out.append(cur.strip()); cur = ''; i += 2
+            continue
+        cur += ch
+        i += 1
+    out.append(cur.strip())
+    return out
+
+
+def add_debug_asserts(lines):
+    """dev aid: assert every top-level conjunct of every loop invariant before its loop"""
+    res = []
+    pending = []
+    i = 0
+    n = len(lines)
+    while i < n:
+        ln = lines[i]
+        if re.match(r'^\s*(while \(|for \()', ln):
+            j = i + 1
+            asserts = []
+            while j < n and (lines[j].strip().startswith('__CPROVER_') or lines[j].strip().startswith('#')):
+                m = re.match(r'^\s*__CPROVER_loop_invariant\((.*)\) /\* (\S+)', lines[j])
+                if lines[j].strip().startswith('#'):
+                    asserts.append(lines[j])
+                if m:
+                    for c in split_and(m.group(1)):
+                        c2 = re.sub(r'\bENTRY\b', 'ID', c)
+                        asserts.append('__CPROVER_assert(%s, "DBG-BASE %s: %s");' % (c2, m.group(2), c.replace('"', "'")[:150]))
+                j += 1
+            res.extend(asserts)
+        res.append(ln)
+        i += 1
+    return res
+
+
+CANARIES = {'BG-CANARY-END': '0', 'BG-CANARY-PEQ': 'G_P != G_Q', 'BG-CANARY-PLT': '!(G_P < G_Q)',
+            'BG-CANARY-PGT': '!(G_P > G_Q)'}
+
+
+def gen_unit(gen_dir, index, specs, fname, prop, path, extra_harness='', debug=False, canaries=False):
     defined, replaced = closure(index, specs, fname)
     if fname not in specs.contracts:
         raise InfraError('no contract for %s' % fname)
@@ -106,6 +153,8 @@ def gen_unit(gen_dir, index, specs, fname, prop, path, extra_harness=''):
     fnlines = {}
     for f in defined:
         text = open(os.path.join(gen_dir, 'fn', f + '.c')).read().rstrip('\n').split('\n')
+        if debug:
+            text = add_debug_asserts(text)
         start = len(L) + 1
         L.extend(text)
         fnlines[f] = (start, len(L))
@@ -130,6 +179,11 @@ def gen_unit(gen_dir, index, specs, fname, prop, path, extra_harness=''):
         L.append('  %s bg_a_%s;' % (t.replace('const ', '') if not t.rstrip().endswith('*') else t, n))
         args.append('bg_a_' + n)
     L.append('  %s(%s);' % (name, ', '.join(args)))
+    if canaries:
+        # vacuity guards: each of these assertions must FAIL (the end of the call is reachable
+        # under the precondition, for every ordering of the observation points)
+        for cname, cexpr in CANARIES.items():
+            L.append('  __CPROVER_assert(%s, "%s");' % (cexpr, cname))
     L.append('}')
     open(path, 'w').write('\n'.join(L) + '\n')
     return {'defined': defined, 'replaced': replaced, 'linemap': linemap, 'fnlines': fnlines}
@@ -150,7 +204,7 @@ def run(cmd, timeout, cwd=None):
 
 
 def run_unit(gen_dir, index, specs, fname, prop, work, timeout=300, solver='cadical', defines=(), keep=False,
-             extra_harness='', extra_cbmc=()):
+             extra_harness='', extra_cbmc=(), debug=False, canaries=False):
     """returns dict(status=ok|fail|infra, obligations, failures[], time, detail)"""
     os.makedirs(work, exist_ok=True)
     tag = fname + ('.' + prop if prop else '')
@@ -158,7 +212,7 @@ def run_unit(gen_dir, index, specs, fname, prop, work, timeout=300, solver='cadi
     res = {'unit': fname, 'prop': prop, 'status': 'infra', 'obligations': 0, 'discharged': 0, 'failures': [],
            'solver_s': 0.0, 'backend': solver}
     try:
-        info = gen_unit(gen_dir, index, specs, fname, prop, cfile, extra_harness)
+        info = gen_unit(gen_dir, index, specs, fname, prop, cfile, extra_harness, debug, canaries)
     except InfraError as e:
         res['detail'] = str(e)
         return res
@@ -209,6 +263,7 @@ def run_unit(gen_dir, index, specs, fname, prop, work, timeout=300, solver='cadi
         return res
     bad_msgs = [m for m in msgs if 'ignoring' in m or 'no body for' in m]
     fails = []
+    canary_dead = []
     n_loop_step = 0
     n_post = 0
     for r in results:
@@ -218,6 +273,12 @@ def run_unit(gen_dir, index, specs, fname, prop, work, timeout=300, solver='cadi
             n_loop_step += 1
         if 'postcondition' in pname or 'ensures' in desc:
             n_post += 1
+        if desc in CANARIES:
+            if r.get('status') == 'FAILURE':
+                res['canaries_ok'] = res.get('canaries_ok', 0) + 1
+            else:
+                canary_dead.append(desc)
+            continue
         if r.get('status') != 'SUCCESS':
             loc = r.get('sourceLocation', {})
             line = int(loc.get('line', 0) or 0)
@@ -226,8 +287,9 @@ def run_unit(gen_dir, index, specs, fname, prop, work, timeout=300, solver='cadi
             fails.append({'property': pname, 'description': desc, 'file': loc.get('file'), 'line': line,
                           'function': loc.get('function'), 'clause': cl, 'status': r.get('status'),
                           'trace': r.get('trace')})
-    res['obligations'] = len(results)
-    res['discharged'] = len(results) - len(fails)
+    ncan = res.get('canaries_ok', 0) + len(canary_dead)
+    res['obligations'] = len(results) - ncan
+    res['discharged'] = len(results) - ncan - len(fails)
     res['failures'] = fails
     res['n_loop_step'] = n_loop_step
     res['n_post'] = n_post
@@ -238,7 +300,10 @@ def run_unit(gen_dir, index, specs, fname, prop, work, timeout=300, solver='cadi
     has_loop_contract = any((f, k) in specs.loops for f in info['defined'] for k in range(1, 50))
     if bad_msgs:
         res['status'] = 'infra'
-        res['detail'] = 'cbmc warnings: ' + '; '.join(bad_msgs[:3])
+        res['detail'] = 'cbmc warnings: ' + '; '.join(m[:200] for m in bad_msgs[:3])
+    elif canary_dead:
+        res['status'] = 'infra'
+        res['detail'] = 'vacuous unit: canaries not reachable: %s' % ','.join(canary_dead)
     elif has_loop_contract and n_loop_step == 0:
         res['status'] = 'infra'
         res['detail'] = 'loop contract silently dropped (no loop_invariant_step obligation)'
